@@ -361,6 +361,40 @@ def run(tier, seed):
     trans += ntlc[1]
     total += nlay
     cov["corpus_statement_layouts"] = {"corpus_scripts_used_as_skeletons": nsk, "layouts_replayed": nlay}
+    # ---- "identifiers, type names and values keep exactly the letter case they were written in": absolute, per word -----------------
+    KW = ["CREATE", "TABLE", "NOT", "NULL", "DEFAULT", "CHARACTER", "SET", "REFERENCES", "DISTKEY", "COLLATE", "WITH", "TIME", "ZONE", "CONSTRAINT", "PRIMARY",
+          "KEY", "INDEX", "ON", "DESC", "ALTER", "ADD", "FOREIGN", "SEQUENCE", "START", "UNIQUE", "ENCODE", "COMMENT"]
+    CASE_SCRIPTS = [
+        "CREATE TABLE S1.MyTab (Id BigInt NOT NULL DEFAULT 'AbC', Name VarChar(10) CHARACTER SET Utf8mb4 NOT NULL, Amount Decimal(10,2) REFERENCES Other (RefId), "
+        "SaleId SmallInt DISTKEY, Note Text COLLATE Latin1_bin, Ts TimeStamp WITH TIME ZONE, Zz Real ENCODE Zstd, CONSTRAINT Pk_My PRIMARY KEY (Id));\n"
+        "CREATE INDEX Ix_Name ON S1.MyTab (Name DESC);\nALTER TABLE S1.MyTab ADD CONSTRAINT Fk_A FOREIGN KEY (SaleId) REFERENCES Other2 (OtherId);\n"
+        "CREATE SEQUENCE S1.MySeq START 5;\n",
+        "CREATE TABLE MyTab2 (Code NVarChar(20) CHARACTER SET Latin1 COLLATE Latin1_General_ci DEFAULT 'MiXed' NOT NULL, Qty DoublePrec UNIQUE, Flag TinyInt DISTKEY NOT NULL);\n",
+    ]
+    ctasks, cmeta = [], []
+    for sc in CASE_SCRIPTS:
+        for style in ("upper", "lower", "cap"):
+            def recase(m, style=style):
+                w = m.group(0)
+                if w.upper() not in KW or w != w.upper():
+                    return w
+                return w if style == "upper" else (w.lower() if style == "lower" else w.capitalize())
+            text = "".join(part if part.startswith("'") else re.sub(r"[A-Za-z_][A-Za-z_0-9]*", recase, part) for part in re.split(r"('[^']*')", sc))
+            words = sorted({w for part in re.split(r"('[^']*')", sc) for w in re.findall(r"[A-Za-z_][A-Za-z_0-9]*", part.strip("'"))
+                            if any(c.isupper() for c in w) and any(c.islower() for c in w)})
+            ctasks.append((text, {}, {}))
+            cmeta.append((style, words))
+    couts, _ = C.parse_many(ctasks)
+    for (style, words), tk, o in zip(cmeta, ctasks, couts):
+        if o[0] != "ok":
+            V.mismatch({"what": "letter case of names / types / values", "ddl": tk[0], "problem": "raised", "error": o[1:3]}, paths=["raised"])
+            continue
+        dump = json.dumps(o[1])
+        lost = [w for w in words if not re.search(r"(?<![A-Za-z0-9_])" + re.escape(w) + r"(?![A-Za-z0-9_])", dump)]
+        if lost:
+            V.mismatch({"what": "letter case of names / types / values", "ddl": tk[0], "keyword_style": style,
+                        "problem": "words not reported in the letter case they were written in", "words": lost}, paths=["case"])
+    total += len(ctasks)
     rc = V.finish()
     cov.update({"states": states, "transitions": trans, "traces_validated_against_impl": total + ncorp, "samples": [sample], "exhaustive": thorough,
                 "known_findings_met": V.hits})
